@@ -168,7 +168,7 @@ func (c *Ctx) Sort(t types.Type) string {
 	case *types.Slice:
 		es := c.Sort(u.Elem())
 		name := "Sl_" + mangle(es)
-		c.decl("dt:"+name, fmt.Sprintf("(declare-datatypes ((%s 0)) (((mk_%s (arr_%s (Array Int %s)) (rawlen_%s Int) (nil_%s Bool)))))", name, name, name, es, name, name))
+		c.decl("dt:"+name, fmt.Sprintf("(declare-datatypes ((%s 0)) (((mk_%s (arr_%s (Array Int %s)) (rawlen_%s Int) (nil_%s Bool) (bid_%s Int)))))", name, name, name, es, name, name, name))
 		// the length of a slice is never negative (a negative raw field cannot arise from Go code)
 		c.decl("fun:len_"+name, fmt.Sprintf("(define-fun len_%s ((s %s)) Int (ite (>= (rawlen_%s s) 0) (rawlen_%s s) 0))", name, name, name, name))
 		return name
@@ -264,7 +264,7 @@ func (c *Ctx) Zero(t types.Type) string {
 	case *types.Slice:
 		s := c.Sort(u)
 		es := c.Sort(u.Elem())
-		return fmt.Sprintf("(mk_%s %s 0 true)", s, c.constArr("Int", es, c.Zero(u.Elem())))
+		return fmt.Sprintf("(mk_%s %s 0 true 0)", s, c.constArr("Int", es, c.Zero(u.Elem())))
 	case *types.Array:
 		return c.constArr("Int", c.Sort(u.Elem()), c.Zero(u.Elem()))
 	case *types.Map:
@@ -292,9 +292,12 @@ func (c *Ctx) zeroStruct(n *types.Named, st *types.Struct) string {
 func (c *Ctx) slArr(s Val) string { n := c.Sort(s.Ty); return fmt.Sprintf("(arr_%s %s)", n, s.S) }
 func (c *Ctx) slLen(s Val) string { n := c.Sort(s.Ty); return fmt.Sprintf("(len_%s %s)", n, s.S) }
 func (c *Ctx) slNil(s Val) string { n := c.Sort(s.Ty); return fmt.Sprintf("(nil_%s %s)", n, s.S) }
-func (c *Ctx) mkSlice(t types.Type, arr, ln, isnil string) string {
-	return fmt.Sprintf("(mk_%s %s %s %s)", c.Sort(t), arr, ln, isnil)
+// bid is the identity of the backing array (0 for nil): make / literals get a fresh one, element stores and reslices
+// keep it, append either keeps it or gets a fresh one. It lets contracts talk about aliasing of backing arrays.
+func (c *Ctx) mkSlice(t types.Type, arr, ln, isnil, bid string) string {
+	return fmt.Sprintf("(mk_%s %s %s %s %s)", c.Sort(t), arr, ln, isnil, bid)
 }
+func (c *Ctx) slBid(s Val) string { n := c.Sort(s.Ty); return fmt.Sprintf("(bid_%s %s)", n, s.S) }
 func (c *Ctx) mpDom(m Val) string { n := c.Sort(m.Ty); return fmt.Sprintf("(dom_%s %s)", n, m.S) }
 func (c *Ctx) mpVal(m Val) string { n := c.Sort(m.Ty); return fmt.Sprintf("(val_%s %s)", n, m.S) }
 func (c *Ctx) mkMap(t types.Type, dom, val string) string {
